@@ -1,5 +1,6 @@
 import Ebv.Driver.Io
 import Ebv.Model.Eeprom
+import Ebv.Model.EepromHist
 open Ebv Ebv.Io Ebv.Eeprom Lean
 
 def showEv : Ev → String
@@ -60,8 +61,79 @@ def getOd (j : Json) : Option OD := do
     | [i, s, d] => pure ((← jNat i, ← jNat s), ← jBytes d)
     | _ => none
 
+/-! histories (Ebv.Model.EepromHist) -/
+
+def showHEv : HEv → String
+  | .rd e => showEv e
+  | .wcmd a v => s!"W{a}:{v}"
+  | .clr => "c"
+  | .fail => "X"
+
+def showPairQ : Option (Nat × Nat) → String
+  | some (a, b) => s!"{a},{b}"
+  | none => "?,?"
+
+def showSMAttrs (s : SM) : String :=
+  s!"mo={showArea s.mbx_out} mi={showArea s.mbx_in} po={showArea s.pdo_out} pi={showArea s.pdo_in}" ++
+    s!" ia={s.pdo_in_addr} oa={s.pdo_out_addr}"
+
+def showTerm (t : Eeprom.Term) : String :=
+  " | ".intercalate [s!"id={showPairQ t.vp},{showPairQ t.rs}",
+    (match t.eeprom with | some c => showCats c | none => "no-eeprom"),
+    (match t.sm with | some s => showSMAttrs s | none => "no-sm"),
+    (match t.pdos with | some p => showPdos p | none => "no-pdos")]
+
+def showResH : Res → String
+  | .ok => "ok"
+  | .okPair a b => s!"ok {a} {b}"
+  | .err e => showErr e
+  | .failed => "failed"
+  | .skipped => "skipped"
+
+def showObs (name : String) (t : Eeprom.Term) (o : Obs) : String :=
+  " | ".intercalate [s!"{name}:{showResH o.res}", showTerm t,
+    (match o.sm with | some s => showSM s | none => "-"),
+    (match o.w800 with | some w => hexOfBytes w | none => "-"),
+    joinSp (o.log.map showHEv), s!"rest={o.rest}"]
+
+def getScript (j : Json) : Option (List Poll) := do (← fArr j "script").mapM parsePoll
+
+def getOdDev (j : Json) : Option (Dev × OD) := do
+  pure (⟨← fBytes j "image", ← fBool j "mode8"⟩, ← getOd j)
+
+def getAct (j : Json) : Option (String × Act) := do
+  let name ← fStr j "do"
+  match name with
+  | "read" => pure (name, .read (← getScript j) none)
+  | "cut" => pure (name, .read (← getScript j) (some (← fNat j "n")))
+  | "write" => pure (name, .write (← fNat j "start") (← fNat j "data") (← getScript j))
+  | "swap" => let (d, od) ← getOdDev j; pure (name, .swap d od)
+  | "sm" => pure (name, .sm)
+  | "pdos" => pure (name, .pdos)
+  | "apply" => pure (name, .apply (← getScript j))
+  | "gentle" => pure (name, .gentle (← fBytes j "regs") (← getScript j))
+  | _ => none
+
+def histStep (j : Json) : Option String := do
+  let terms ← fArr j "terms"
+  let devs ← fArr j "devs"
+  let w : List Slot ← (terms.zip devs).mapM fun (t, d) => do
+    let (dev, od) ← getOdDev d
+    pure { term := { ebpf := (← fStr t "cls") == "E" }, dev := dev, od := od, addr := 0 }
+  let steps ← (← fArr j "steps").mapM fun s => do
+    let (name, a) ← getAct s
+    pure (name, (⟨← fNat s "k", a⟩ : Step))
+  let obs := runObs w (steps.map (·.2))
+  let lines := (steps.zip obs).map fun ((name, _), o) =>
+    match o with
+    | some (t, ob) => showObs name t ob
+    | none => "no-such-terminal"
+  let fin := (runW w (steps.map (·.2))).map fun s => showTerm s.term
+  pure (" || ".intercalate lines ++ " || final: " ++ " ## ".intercalate fin)
+
 def step (j : Json) : Option String := do
   match ← fStr j "op" with
+  | "hist" => histStep j
   | "read_one" =>
     let (d, b) ← getDev j
     let r := readOne d (← fNat j "start") b
